@@ -1,10 +1,12 @@
 pub mod c01;
+pub mod c02;
 
 use crate::ctx::Ctx;
 
 pub fn run(check: &str, ctx: &mut Ctx, _args: &[String]) -> bool {
     match check {
         "c01" => c01::run(ctx),
+        "c02" => c02::run(ctx),
         _ => return false,
     }
     true
@@ -14,6 +16,7 @@ pub fn run(check: &str, ctx: &mut Ctx, _args: &[String]) -> bool {
 pub fn replay(check: &str, j: &serde_json::Value) -> bool {
     match check {
         "c01" => c01::replay(j),
+        "c02" => c02::replay(j),
         _ => {
             eprintln!("no replay for {check}");
             false
